@@ -75,8 +75,10 @@ TNext ==
           ELSE IF ~t.o.joined
           THEN PrintT(<<"VERDICT", t.id, "HarnessStall", "ok">>) /\ st' = st
           ELSE LET o == Abs(t.o)
-                   m == Final(cfg, srv)
-               IN PrintT(<<"VERDICT", t.id, RulesClause(cfg, srv, o), DriftClause(m, o, t.o)>>) /\ st' = m
+                   m  == FinalKD(cfg, srv, AllKnownDefects)     \* the code as it is
+                   m0 == FinalKD(cfg, srv, {})                  \* the code as the findings ask it to be
+                   d  == IF DriftClause(m0, o, t.o) = "ok" THEN "ok" ELSE DriftClause(m, o, t.o)
+               IN PrintT(<<"VERDICT", t.id, RulesClause(cfg, srv, o), d>>) /\ st' = m
     /\ tid' = tid + 1
 
 TSpec == TInit /\ [][TNext]_tvars
